@@ -1,10 +1,13 @@
 import Nstd.Common.Basic
 import Nstd.Xml.Model
 import Nstd.Xml.EscapeMem
+import Nstd.Xml.Heap
 /-
   Line protocol of the Xml area (C16).  One op per line, one observation line per op.
     reset                 -> ready
     parse <hex>           -> ok <dump> | fail <line> <col> <msg>
+    pparse <hex>, parser <hex>, file <tree>  -> the same through the public entry points (Xml::parse(const String&),
+                             Xml::Parser, Xml::save + Xml::load + Xml::Parser::load of a scratch file)
     tostr <tree>          -> str <hex>            (Element::toString)
     rt <tree>             -> ok <dump> | fail ... (parse (Xml::toString tree))
     esc <0|1> <hex>       -> str <hex>            (escapeString, text / attribute value)
@@ -18,6 +21,15 @@ import Nstd.Xml.EscapeMem
                              B(A) copy-constructed then edited at top level, C = A assigned then its
                              content cleared, A printed after the edits and destroyed before B, C are printed;
                              trees without positions)
+  Variant handles (Heap.lean; 4 variables `Xml::Variant`, state kept until `reset`); every op prints the value of
+  every variable afterwards:  hv <v0> <v1> <v2> <v3>   with value := n | t HEX | elem (dump without positions)
+    hassign <d> <s>                    vars[d] = vars[s]
+    hclear <v>                         vars[v].clear()
+    hsetstr <v> <hex>                  vars[v] = String
+    hmut <v> <path> <edit…>            mutable toElement() on vars[v], then content[k].toElement() along <path>
+                                       (`-` or k.k.k), then one edit of that element:
+                                       rename <hex> | attr <hexk> <hexv> | addtext <hex> | addelem <hex> | delfirst |
+                                       clear | settext <k> <hex> | push <src>
   dump / tree:  elem := '(' HEX(name) ['#' line '.' col] { '@' HEX(key) '=' HEX(val) } { ',' child } ')'
                 child := elem | 't' HEX(text)
 -/
@@ -162,12 +174,91 @@ def showParse (r : Res Elem) : String :=
   | .oob => "FAULT oob"
   | .fuel => "FAULT fuel"
 
-def stepLine (_ : Unit) (ws : List String) : Unit × String :=
+/-! ### Variant handles (Heap.lean) -/
+
+def nVars : Nat := 4
+
+partial def dumpKids : Heap.Kids → String
+  | .nil => ""
+  | .text s r => ",t" ++ hx s ++ dumpKids r
+  | .elem n as k r =>
+    ",(" ++ hx n ++ String.join (as.map (fun kv => "@" ++ hx kv.1 ++ "=" ++ hx kv.2)) ++ dumpKids k ++ ")" ++ dumpKids r
+
+def dumpVal : Option Heap.Val → String
+  | none => "FAULT"
+  | some .null => "n"
+  | some (.text s) => "t" ++ hx s
+  | some (.elem n as k) =>
+    "(" ++ hx n ++ String.join (as.map (fun kv => "@" ++ hx kv.1 ++ "=" ++ hx kv.2)) ++ dumpKids k ++ ")"
+
+def showVars (s : Heap.St) : String :=
+  "hv " ++ " ".intercalate ((List.range s.nv).map (fun v => dumpVal (Heap.unfoldV s.heap 100000 (s.vars v))))
+
+def pathOf (w : String) : Option (List Nat) :=
+  if w == "-" then some [] else (w.splitOn ".").mapM String.toNat?
+
+def editOf : List String → Option Heap.Edit
+  | ["rename", h] => (bytesOfHex h).map .rename
+  | ["attr", k, v] => do
+    let k ← bytesOfHex k
+    let v ← bytesOfHex v
+    pure (.setAttr k v)
+  | ["addtext", h] => (bytesOfHex h).map .addText
+  | ["addelem", h] => (bytesOfHex h).map .addElem
+  | ["delfirst"] => some .delFirst
+  | ["clear"] => some .clearE
+  | ["settext", k, h] => do
+    let k ← k.toNat?
+    let t ← bytesOfHex h
+    pure (.setText k t)
+  | ["push", v] => v.toNat?.map .push
+  | _ => none
+
+def heapOp : List String → Option Heap.Op
+  | ["hassign", d, s] => do
+    let d ← d.toNat?
+    let s ← s.toNat?
+    pure (.assign d s)
+  | ["hclear", v] => v.toNat?.map .clear
+  | ["hsetstr", v, h] => do
+    let v ← v.toNat?
+    let t ← bytesOfHex h
+    pure (.setStr v t)
+  | "hmut" :: v :: p :: ed => do
+    let v ← v.toNat?
+    let p ← pathOf p
+    let ed ← editOf ed
+    pure (.mut v p ed)
+  | _ => none
+
+def stepLine (st : Heap.St) (ws : List String) : Heap.St × String :=
+  if (ws.headD "").startsWith "h" then
+    match heapOp ws with
+    | some op =>
+      match Heap.step? st op with
+      | some st' => (st', showVars st')
+      | none => (st, "bad-op")
+    | none => (st, "bad-op")
+  else if ws == ["reset"] then (Heap.init nVars, "ready")
+  else (st, (stepPure ws).2)
+where stepPure (ws : List String) : Unit × String :=
   match ws with
   | ["reset"] => ((), "ready")
   | ["parse", h] =>
     match bytesOfHex h with
     | some bs => ((), showParse (parse bs))
+    | none => ((), "bad-op")
+  | ["pparse", h] =>          -- Xml::parse(const String&) -> Xml::parse(const char*): same result, error text in Error
+    match bytesOfHex h with
+    | some bs => ((), showParse (parse bs))
+    | none => ((), "bad-op")
+  | ["parser", h] =>          -- Xml::Parser::parse + getErrorLine/Column/String
+    match bytesOfHex h with
+    | some bs => ((), showParse (parse bs))
+    | none => ((), "bad-op")
+  | ["file", tr] =>           -- Xml::save(tree, f), Xml::load(f) and Xml::Parser::load(f)
+    match parseTree tr with
+    | some e => ((), showParse (parse (docToStr e)))
     | none => ((), "bad-op")
   | ["tostr", tr] =>
     match parseTree tr with
@@ -209,4 +300,4 @@ def stepLine (_ : Unit) (ws : List String) : Unit × String :=
 
 end Nstd.Xml
 
-def main : IO Unit := Nstd.Common.ioLoop () Nstd.Xml.stepLine
+def main : IO Unit := Nstd.Common.ioLoop (Nstd.Xml.Heap.init Nstd.Xml.nVars) Nstd.Xml.stepLine
